@@ -3,7 +3,7 @@ use std::{
     collections::{HashMap, HashSet},
     error::Error,
     path::{Path, PathBuf},
-    sync::Arc,
+    sync::{Arc, Mutex},
     thread,
 };
 
@@ -64,6 +64,16 @@ pub(crate) struct Server {
 
     /// Aggregated formatting settings
     formatting_settings: FormattingSettings,
+
+    /// The ticket of the latest analysis of each open document, shared with the analysis threads.
+    /// An analysis thread only publishes its diagnostics if its ticket is still the latest one of
+    /// the document. Check and publication are done while holding the lock.
+    /// A ticket is used rather than the document version because a client may reuse version
+    /// numbers, e.g. after closing and reopening a document.
+    latest_analyses: Arc<Mutex<HashMap<Uri, u64>>>,
+
+    /// The source of analysis tickets
+    analysis_counter: u64,
 }
 
 impl Server {
@@ -88,6 +98,7 @@ impl Server {
         &mut self,
         uri: Uri,
         version: i32,
+        ticket: u64,
         connection: Arc<lsp_server::Connection>,
     ) -> anyhow::Result<()> {
         let file_path: PathBuf = PathBuf::from(uri.path().to_string());
@@ -109,6 +120,8 @@ impl Server {
             uri,
             version,
             document_state.clone(),
+            ticket,
+            self.latest_analyses.clone(),
         )?;
         eprintln!("analyze: finished");
         Ok(())
@@ -131,6 +144,8 @@ impl Server {
         uri: Uri,
         version: i32,
         document_state: DocumentState,
+        ticket: u64,
+        latest_analyses: Arc<Mutex<HashMap<Uri, u64>>>,
     ) -> anyhow::Result<()> {
         let mut grammar_config = Self::obtain_grammar_config_from_string(input, file_name)?;
         let ignored_unreachable_non_terminals = grammar_config
@@ -156,35 +171,73 @@ impl Server {
             GrammarType::LLK => {
                 if let Err(err) = calculate_lookahead_dfas(&grammar_config, max_k) {
                     eprintln!("check_grammar: errors from calculate_lookahead_dfas");
-                    let _ =
-                        Self::notify_analysis_error(err, connection, &uri, version, document_state);
+                    Self::notify_if_latest(&latest_analyses, &uri, ticket, || {
+                        Self::notify_analysis_error(err, connection, &uri, version, document_state)
+                    });
                 }
             }
             GrammarType::LALR1 => {
                 let result = calculate_lalr1_parse_table(&grammar_config);
                 match result {
                     Ok((_, resolved_conflicts)) => {
-                        let _ = Self::notify_resolved_conflicts(
-                            resolved_conflicts,
-                            connection,
-                            &uri,
-                            version,
-                        );
+                        Self::notify_if_latest(&latest_analyses, &uri, ticket, || {
+                            Self::notify_resolved_conflicts(
+                                resolved_conflicts,
+                                connection,
+                                &uri,
+                                version,
+                            )
+                        });
                     }
                     Err(err) => {
                         eprintln!("check_grammar: errors from calculate_lookahead_dfas");
-                        let _ = Self::notify_analysis_error(
-                            err,
-                            connection,
-                            &uri,
-                            version,
-                            document_state,
-                        );
+                        Self::notify_if_latest(&latest_analyses, &uri, ticket, || {
+                            Self::notify_analysis_error(
+                                err,
+                                connection,
+                                &uri,
+                                version,
+                                document_state,
+                            )
+                        });
                     }
                 }
             }
         });
         Ok(())
+    }
+
+    /// Publishes diagnostics of an analysis thread only if its analysis is still the latest one
+    /// of the document. The lock is held during the publication, so that the main thread can't
+    /// register (and publish diagnostics for) a newer analysis in between.
+    fn notify_if_latest(
+        latest_analyses: &Mutex<HashMap<Uri, u64>>,
+        uri: &Uri,
+        ticket: u64,
+        notify: impl FnOnce() -> Result<(), Box<dyn Error>>,
+    ) {
+        {
+            let latest_analyses = latest_analyses.lock().unwrap_or_else(|e| e.into_inner());
+            if latest_analyses.get(uri) == Some(&ticket) {
+                let _ = notify();
+            } else {
+                eprintln!("check_grammar: dropping outdated diagnostics of analysis {ticket}");
+            }
+        }
+    }
+
+    /// Registers a new analysis of a document and returns its ticket. Diagnostics of analysis
+    /// threads that are still working on older states of the document are dropped from now on.
+    fn register_analysis(&mut self, uri: &Uri) -> u64 {
+        self.analysis_counter += 1;
+        {
+            let mut latest_analyses = self
+                .latest_analyses
+                .lock()
+                .unwrap_or_else(|e| e.into_inner());
+            latest_analyses.insert(uri.clone(), self.analysis_counter);
+        }
+        self.analysis_counter
     }
 
     pub(crate) fn handle_open_document(
@@ -193,6 +246,7 @@ impl Server {
         n: lsp_server::Notification,
     ) -> Result<(), Box<dyn Error>> {
         let params: DidOpenTextDocumentParams = n.extract(DidOpenTextDocument::METHOD)?;
+        let ticket = self.register_analysis(&params.text_document.uri);
         self.documents.insert(
             params.text_document.uri.clone(),
             DocumentState {
@@ -203,6 +257,7 @@ impl Server {
         match self.analyze(
             params.text_document.uri.clone(),
             params.text_document.version,
+            ticket,
             connection.clone(),
         ) {
             Ok(()) => {
@@ -234,10 +289,12 @@ impl Server {
         n: lsp_server::Notification,
     ) -> Result<(), Box<dyn Error>> {
         let params: DidChangeTextDocumentParams = n.extract(DidChangeTextDocument::METHOD)?;
+        let ticket = self.register_analysis(&params.text_document.uri);
         self.apply_changes(&params.text_document.uri, &params.content_changes);
         match self.analyze(
             params.text_document.uri.clone(),
             params.text_document.version,
+            ticket,
             connection.clone(),
         ) {
             Ok(()) => {
@@ -447,6 +504,13 @@ impl Server {
 
     fn cleanup(&mut self, uri: &Uri) {
         self.documents.remove(uri);
+        {
+            let mut latest_analyses = self
+                .latest_analyses
+                .lock()
+                .unwrap_or_else(|e| e.into_inner());
+            latest_analyses.remove(uri);
+        }
     }
 
     fn apply_changes(&mut self, uri: &Uri, content_changes: &[TextDocumentContentChangeEvent]) {
